@@ -150,4 +150,12 @@ def depths : MSt → List MOp → List Nat
   | _, [] => []
   | s, o :: rest => s.st.length :: depths (stepM s o) rest
 
+/-- the machine's state before each of a sequence of executed instructions: beside the height of the
+stack (`depths`) the recorded heights, which the hook exposes since the commit `verif hook: … marks`
+(`Snapshot.return_marks` ↔ `marks`, components 0 and 1; `Snapshot.go_sub_marks` ↔ `gos`, component 0;
+`Snapshot.error_marks` ↔ `errH`, component 0) -/
+def states : MSt → List MOp → List MSt
+  | _, [] => []
+  | s, o :: rest => s :: states (stepM s o) rest
+
 end RbModel.Frames
